@@ -208,7 +208,7 @@ class C20(Prop):
     title = "Immutable configuration: values change only through authorised, logged mutations"
     fixed_prefix = 1
     extractors = ["py2lean-genome", "eval-genome"]
-    quick_budget = 2500
+    quick_budget = 2200
     thorough_budget = 30000
     quick_deadline_s = 100
     thorough_deadline_s = 800
@@ -664,9 +664,9 @@ class C20(Prop):
              "rollback 0 0", "stats 0"],
             ["adv - -", "new 1 none 0 0:1:s:1:2 1:2:c:0:3", f"repeat {big // 2} mutate 0 0 7 / rollback 0 0", "stats 0",
              "setallow 0 0", "mutate 0 0 5", "rollback 0 0", "setallow 0 1", "rollback 0 0"],
-            ["adv 0:7 -", "new 0 0 0 0:1:s:1:2 1:2:c:0:3", "mutate 0 0 7", "repeat 300 add 0 0:9:s:1:2 / mutate 0 1 5 / rollback 0 1",
+            ["adv 0:7 -", "new 0 0 0 0:1:s:1:2 1:2:c:0:3", "mutate 0 0 7", "repeat 180 add 0 0:9:s:1:2 / mutate 0 1 5 / rollback 0 1",
              "stats 0", "rollback 0 0"],
-            ["adv - -", "new 0 none 0 0:1:s:1:2 1:2:c:0:3", "repeat 270 silence 0 0 / express 0 1 / activate 0 0 / express 0 1",
+            ["adv - -", "new 0 none 0 0:1:s:1:2 1:2:c:0:3", "repeat 140 silence 0 0 / express 0 1 / activate 0 0 / express 0 1",
              "getv 0 0", "express 0 -"],
             ["adv 0:7 -", "new 0 0 0 0:1:s:1:2 1:2:c:0:3", "repeat 40 replicate 0 1 0:7,1:5", "mutate 7 0 1", "rollback 7 0",
              "stats 39", "express 40 -"],
